@@ -8,6 +8,7 @@ CopyOK(e) ==
   /\ \A i \in 1..Len(e.ops) : e.ops[i].eq /\ e.ops[i].again /\ (e.ops[i].errcopy => e.ops[i].errorig)
   /\ (e.concurrent => Len(e.written) = 0)
   /\ (e.deep => e.nshared = 0 /\ e.origintact)
+  /\ e.origgraph
 SchedOK(e) == ~e.panic /\ e.races = 0 /\ e.seqequal
 TrCopy == Ev.ev = "copy" /\ CopyOK(Ev)
 TrSched == Ev.ev = "sched" /\ SchedOK(Ev)
